@@ -733,6 +733,135 @@ theorem leaf_fold_selectors :
     Rsa.Gen.C02.poissonTestIsFold = 1 ∧ Rsa.Gen.C02.poissonTrainExcludesFold = 1 := by
   decide
 
+/-! ### reuse sessions: the value of a call does not depend on the object's history (round 4) -/
+
+section sessions
+variable {α : Type} [Add α] [Sub α] [Mul α] [Div α] [Neg α] [Zero α] [One α] [NatCast α]
+  [LT α] [DecidableLT α] [LE α] [DecidableLE α] [Max α] [Min α] [DecidableEq α]
+variable {L' F' : Type} [DecidableEq L'] [LT L'] [DecidableLT L'] [DecidableEq F'] [LT F'] [DecidableLT F']
+
+/-- today's source has no statement in the anchored functions that can leave something behind
+    after a call (store into a parameter or a module-level name, decorator, mutable default …),
+    `_check_noise` hands back its argument itself, and both estimators sort / extend an
+    unconditional `deepcopy(dataset)`.  (Generated from the source text on every run.) -/
+theorem leaf_no_input_writes :
+    Rsa.Gen.C02.inputWrites = 0 ∧ Rsa.Gen.C02.checkNoiseIdentity = 1 ∧
+    Rsa.Gen.C02.crossWorkIsCopy = 1 ∧ Rsa.Gen.C02.poissonWorkIsCopy = 1 := by
+  decide
+
+theorem map_checkNoiseRestore (precs : List (List (List α))) :
+    precs.map checkNoiseRestore = precs := by
+  have h : ∀ N : List (List α), checkNoiseRestore N = N := by
+    intro N
+    simp [checkNoiseRestore, Rsa.Gen.C02.checkNoiseIdentity]
+  induction precs with
+  | nil => rfl
+  | cons N Ns ih => rw [List.map_cons, h, ih]
+
+/-- one call — either estimator, any options, any precision argument — leaves the dataset object
+    and every precision object as they were (unfolds the four generated leaves) -/
+theorem call_keeps_content (c : Call α) (m : Mem L' F' α) : c.after m = some m := by
+  obtain ⟨rows, precs⟩ := m
+  cases hp : c.poisson <;> cases hn : c.noise <;>
+    simp [Call.after, hp, hn, Rsa.Gen.C02.inputWrites, Rsa.Gen.C02.crossWorkIsCopy,
+      Rsa.Gen.C02.poissonWorkIsCopy, map_checkNoiseRestore]
+
+/-- **reuse sessions**: any list of calls (either estimator, `remove_mean` or not, no precision /
+    one matrix / one per fold, default or explicit folds, either condition descriptor) interleaved
+    with the caller's own `sort_by` steps returns, at every call, the value of the stand-alone call
+    on the content of that moment, and the content is changed by the caller's sorts only. -/
+theorem session_calls_independent (cand : List (List α) → List (List α)) (lg : α → α) (P : Nat)
+    (steps : List (Step α)) (m : Mem L' F' α) :
+    runSession cand lg P steps m = some (valuesAlong cand lg P steps m, sortsOnly steps m) := by
+  induction steps generalizing m with
+  | nil => rfl
+  | cons s ss ih =>
+    cases s with
+    | call c => simp only [runSession, call_keeps_content, ih, valuesAlong, sortsOnly]
+    | sort key => simp only [runSession, ih, valuesAlong, sortsOnly]
+
+/-- a session of calls only leaves the object exactly as it was … -/
+theorem session_content_is_sorts_only (calls : List (Call α)) (m : Mem L' F' α) :
+    sortsOnly (calls.map Step.call) m = m := by
+  induction calls with
+  | nil => rfl
+  | cons c cs ih => simpa [sortsOnly] using ih
+
+theorem valuesAlong_calls (cand : List (List α) → List (List α)) (lg : α → α) (P : Nat)
+    (calls : List (Call α)) (m : Mem L' F' α) :
+    valuesAlong cand lg P (calls.map Step.call) m = calls.map (fun c => c.value cand lg P m) := by
+  induction calls with
+  | nil => rfl
+  | cons c cs ih => simp [valuesAlong, ih]
+
+/-- **several objects**: with any number of dataset objects in the caller's hands, every call returns
+    the stand-alone value on the content of the object it is given — whatever was computed on this
+    or on any other object before — and each object is changed by the caller's own sorts only. -/
+theorem session_objects_independent (cand : List (List α) → List (List α)) (lg : α → α) (P : Nat)
+    (steps : List (Nat × Step α)) (ms : List (Mem L' F' α)) :
+    runStore cand lg P steps ms = some (valuesStore cand lg P steps ms, sortsStore steps ms) := by
+  induction steps generalizing ms with
+  | nil => rfl
+  | cons s ss ih =>
+    obtain ⟨k, st⟩ := s
+    cases st with
+    | call c =>
+      cases hk : ms[k]? with
+      | none => simp [runStore, valuesStore, sortsStore, hk, ih]
+      | some m =>
+        have hset : ms.set k m = ms := by
+          obtain ⟨hlt, hm⟩ := List.getElem?_eq_some_iff.mp hk
+          rw [← hm]; exact List.set_getElem_self hlt
+        simp [runStore, valuesStore, sortsStore, hk, call_keeps_content, hset, ih]
+    | sort key =>
+      cases hk : ms[k]? with
+      | none => simp [runStore, valuesStore, sortsStore, hk, ih]
+      | some m => simp [runStore, valuesStore, sortsStore, hk, ih]
+
+end sessions
+
+/-- … and every call of it is the statement's pair average on the ORIGINAL content: for a
+    fold-balanced dataset with ≥ 2 folds, the `i`-th call of any session of calls that use the
+    first condition descriptor, the explicit fold descriptor and no / one precision matrix returns
+    the average over ordered pairs of distinct folds, whatever was computed on the object before
+    (`session_calls_independent` + `crossnobis_eq_pair_average` + `poissoncv_eq_pair_average`). -/
+theorem session_call_value (cand : List (List K) → List (List K)) (lg : K → K) (P : Nat)
+    (calls : List (Call K)) (m : Mem L F K)
+    (D : List (Obs L F K)) (hD : D = m.rows.map (fun r => ⟨r.c1, r.fold, r.x⟩))
+    {R : Nat} (hbal : Balanced D R) (hM : 2 ≤ (foldsOfD D).length)
+    (i : Nat) (hi : i < calls.length)
+    (hc : calls[i].useC2 = false ∧ calls[i].defaultFolds = false) :
+    ∃ vs, runSession cand lg P (calls.map Step.call) m = some (vs, m) ∧
+      (calls[i].poisson = true →
+        vs[i]? = some (some ((pairsOf (condsOf D)).map (fun ab =>
+          (ab, poissonCvSpec lg calls[i].lam0 calls[i].w P D (foldsOfD D) ab.1 ab.2))))) ∧
+      (calls[i].poisson = false → calls[i].noise = NoiseSel.none →
+        vs[i]? = some (some ((pairsOf (condsOf D)).map (fun ab =>
+          (ab, crossnobisSpec (xT calls[i].removeMean P) P eye D (foldsOfD D) ab.1 ab.2))))) ∧
+      (∀ j N, calls[i].poisson = false → calls[i].noise = NoiseSel.matrix j → m.precs[j]? = some N →
+        noiseShapeOk P N = true →
+        vs[i]? = some (some ((pairsOf (condsOf D)).map (fun ab =>
+          (ab, crossnobisSpec (xT calls[i].removeMean P) P (matFn N) D (foldsOfD D) ab.1 ab.2))))) := by
+  refine ⟨valuesAlong cand lg P (calls.map Step.call) m, ?_, ?_, ?_, ?_⟩
+  · rw [session_calls_independent, session_content_is_sorts_only]
+  all_goals
+    rw [valuesAlong_calls, List.getElem?_map, List.getElem?_eq_getElem hi, Option.map_some]
+  · intro hp
+    have : SRow.label (L := L) (F := F) (α := K) false = fun r => r.c1 := by
+      funext r; simp [SRow.label]
+    simp only [Call.value, hc.1, hc.2, estimate, hp, if_true, Bool.false_eq_true, if_false, this,
+      ← hD, poissoncv_eq_pair_average lg _ _ P D hbal hM]
+  · intro hp hn
+    have : SRow.label (L := L) (F := F) (α := K) false = fun r => r.c1 := by
+      funext r; simp [SRow.label]
+    simp only [Call.value, hc.1, hc.2, estimate, hp, hn, Bool.false_eq_true, if_false, this,
+      ← hD, crossnobis_eq_pair_average _ P _ D hbal hM]
+  · intro j N hp hn hN hshape
+    have : SRow.label (L := L) (F := F) (α := K) false = fun r => r.c1 := by
+      funext r; simp [SRow.label]
+    simp only [Call.value, hc.1, hc.2, estimate, hp, hn, hN, hshape, Bool.false_eq_true, if_false,
+      if_true, this, ← hD, crossnobis_eq_pair_average _ P _ D hbal hM]
+
 /-! ### the hypotheses are satisfiable (non-vacuity) -/
 
 /-- 3 conditions × 2 folds × 1 repetition, 2 channels, over ℚ -/
@@ -790,5 +919,27 @@ example : ∀ m ∈ foldsOfD exD, SymmOn 2 (exPrec m) := by
 -- a certificate is rejected for a wrong candidate (the check is not vacuous)
 example : certInv (fun A => A) 2 [[2, 1], [1, 2]] = (none : Option (List (List ℚ))) := by
   decide +kernel
+
+-- reuse sessions: `remove_mean` first, then without, then a precision matrix, then Poisson, on `exD`
+def exMem : Mem Nat Nat ℚ :=
+  ⟨exD.map (fun r => ⟨r.cond, 2 - r.cond, r.fold, r.x⟩), [[[2, 1], [1, 2]], [[1, 0], [0, 3]]]⟩
+def exCalls : List (Call ℚ) :=
+  [⟨false, false, false, true, .none, 1, 1⟩, ⟨false, false, false, false, .none, 1, 1⟩,
+   ⟨false, false, false, false, .matrix 0, 1, 1⟩, ⟨true, false, false, false, .none, 1, 1/10⟩]
+example : exD = exMem.rows.map (fun r => ⟨r.c1, r.fold, r.x⟩) := by
+  simp [exMem, exD]
+example : ∀ i (hi : i < exCalls.length), exCalls[i].useC2 = false ∧ exCalls[i].defaultFolds = false := by
+  decide
+-- a session with default folds, the second descriptor, per-fold precisions and a user sort
+example : ∃ vs, runSession adj2 id 2
+    [.call ⟨false, true, true, true, .perFold, 1, 1⟩, .sort 2, .call ⟨false, false, true, false, .none, 1, 1⟩]
+    exMem = some (vs, { exMem with rows := sortRows 2 exMem.rows }) :=
+  ⟨_, session_calls_independent adj2 id 2 _ exMem⟩
+-- two objects, calls alternating between them
+example : ∃ vs, runStore adj2 id 2
+    [(0, .call ⟨false, false, true, true, .none, 1, 1⟩), (1, .call ⟨false, false, true, false, .none, 1, 1⟩),
+     (0, .call ⟨true, false, false, false, .none, 1, 1⟩)]
+    [exMem, sortMem 2 exMem] = some (vs, [exMem, sortMem 2 exMem]) :=
+  ⟨_, session_objects_independent adj2 id 2 _ _⟩
 
 end Rsa.Props.C02
